@@ -410,6 +410,7 @@ func runC04(c *core.Ctx) {
 			}
 		}
 	}
+	c04Lagging(c, r)
 	// random long sequences and re-pointing templates
 	n := c.Pick(60, 600)
 	for i := 0; i < n; i++ {
@@ -444,4 +445,123 @@ func c4random(rng *rand.Rand, base string) []c4op {
 		seq = append(seq, alpha[rng.Intn(len(alpha))])
 	}
 	return seq
+}
+
+// c04Lagging: the re-pointing templates with the READER HELD BACK (consumer
+// paused, no barrier between the filesystem step and the re-Add): Add of an
+// existing path must still succeed, and once the stream is quiescent WatchList
+// must equal the sequential model's and every listed path must have a live watch.
+func c04Lagging(c *core.Ctx, r *c4runner) {
+	n := c.Pick(12, 80)
+	for i := 0; i < n; i++ {
+		rng, ok := c.CaseRng(2000000+i, "lagging re-point template")
+		if !ok {
+			continue
+		}
+		s := r.session()
+		if s == nil {
+			return
+		}
+		c4reset(r.base)
+		m := &c4model{byIno: map[c4ino]string{}, byPath: map[string]c4ino{}}
+		var seq []c4op
+		viol := func(sig, text string) {
+			c.Violate(sig, fmt.Sprintf("lagging sequence %v: %s", seq, strings.ReplaceAll(text, r.base, "$B")), seq)
+		}
+		link := []string{"f", "lf", "lr", "d"}[rng.Intn(4)]
+		step := map[string][]string{"f": {"recreate f", "mv g f", "unlink f"}, "lf": {"retarget lf g", "retarget lf d"}, "lr": {"retarget lr f"}, "d": {"rmdir d", "mv d d2"}}[link]
+		fs := step[rng.Intn(len(step))]
+		do := func(o c4op) bool {
+			seq = append(seq, o)
+			switch o.Kind {
+			case "add":
+				expErr := m.add(o.Arg)
+				err, pan := twin.Protect(func() error { return s.W.Add(o.Arg) })
+				if pan != "" {
+					viol("panic-in-Add", pan)
+					return false
+				}
+				if (err != nil) != expErr {
+					viol("add-result", fmt.Sprintf("Add(%q)=%v with the reader lagging; the path %s", o.Arg, err, map[bool]string{true: "does not resolve", false: "exists and must be watchable"}[expErr]))
+					return false
+				}
+			case "fs":
+				c4fs(m, o.Arg)
+				if strings.HasPrefix(o.Arg, "rmdir") || strings.HasPrefix(o.Arg, "mv d") {
+					os.Mkdir("d", 0o755) // so that the re-Add has something to watch
+				}
+			}
+			return true
+		}
+		good := do(c4op{"add", link})
+		if rng.Intn(2) == 0 {
+			good = good && do(c4op{"add", "h"})
+		}
+		if ok, _ := s.Barrier(); !ok {
+			r.drop()
+			continue
+		}
+		s.Pause(true)
+		for k := rng.Intn(4); k > 0; k-- { // park the reader in a send
+			os.Chmod(link, 0o600+os.FileMode(k))
+		}
+		good = good && do(c4op{"fs", fs})
+		if fs == "unlink f" {
+			os.WriteFile("f", nil, 0o644)
+		}
+		good = good && do(c4op{"add", link}) // no barrier: the old watch's notifications are still queued
+		if !good {
+			r.drop()
+			continue
+		}
+		if ok, dump := s.Barrier(); !ok {
+			c.Inconclusive("barrier watchdog: " + hangClass(dump))
+			r.drop()
+			continue
+		}
+		c.Res.Counters["lagging_sequences"]++
+		c.Res.Counters["steps_compared"]++
+		c.Eval(1)
+		c.Distinct(fmt.Sprint("lag", seq))
+		if l := s.WatchList(); strings.Join(l, "\x00") != strings.Join(m.list(), "\x00") {
+			viol("watchlist", fmt.Sprintf("once quiescent: WatchList=%q, model=%q", l, m.list()))
+			r.drop()
+			continue
+		}
+		s.Take()
+		exp := map[string]int{}
+		for _, p := range m.list() {
+			if i, err := c4resolve(p); err == nil && i == m.byPath[p] && os.Chmod(p, 0o711) == nil {
+				exp[p]++
+			}
+		}
+		if ok, _ := s.Barrier(); !ok {
+			r.drop()
+			continue
+		}
+		_, got, _ := s.Take()
+		seen := map[string]int{}
+		for _, e := range got {
+			if e.Op&fsnotify.Chmod != 0 {
+				seen[e.Name]++
+			}
+		}
+		dirty := false
+		for p, k := range exp {
+			c.Res.Counters["probe_events_checked"]++
+			if seen[p] != k {
+				viol("probe", fmt.Sprintf("chmod of listed path %q produced %d Chmod events (want 1); received %v", p, seen[p], got))
+				dirty = true
+			}
+		}
+		for _, p := range s.WatchList() {
+			if err, pan := twin.Protect(func() error { return s.W.Remove(p) }); err != nil || pan != "" {
+				viol("final-remove", fmt.Sprintf("Remove(%q)=%v %s", p, err, pan))
+				dirty = true
+			}
+		}
+		if dirty {
+			r.drop()
+		}
+	}
 }
